@@ -133,6 +133,8 @@ func execCase(c Case) Obs {
 		return execTree(c)
 	case "read":
 		return execRead(c)
+	case "chunk":
+		return execChunk(c)
 	}
 	if f, ok := cfg.Exec[c.Kind]; ok {
 		return f(c)
@@ -200,7 +202,7 @@ func (ch *child) kill() {
 }
 
 var theChild *child
-var watchdog = 8 * time.Second
+var watchdog = 20 * time.Second
 
 // runIsolated executes one case in the child process and classifies the outcome.
 func runIsolated(c Case) Obs {
@@ -298,7 +300,7 @@ func Main(c Config) {
 	}
 	ctx := hx.Start()
 	if ctx.Tier == "thorough" {
-		watchdog = 15 * time.Second
+		watchdog = 40 * time.Second
 	}
 	emit := func(c Case) {
 		o := runIsolated(c)
